@@ -116,6 +116,51 @@ func runC07(c *core.Ctx) {
 
 // constructedType: the named type whose value the constructor returns inside an interface.
 func constructedType(fn *ssa.Function) string {
+	return constructedTypeDepth(fn, 0)
+}
+
+func constructedTypeDepth(fn *ssa.Function, depth int) string {
+	name := constructedHere(fn)
+	if name != "" || depth > 3 {
+		return name
+	}
+	// a constructor that delegates: it returns what another function of the same package constructs
+	for _, b := range fn.Blocks {
+		for _, in := range b.Instrs {
+			ret, ok := in.(*ssa.Return)
+			if !ok || len(ret.Results) != 1 {
+				continue
+			}
+			call, ok := ret.Results[0].(*ssa.Call)
+			if !ok {
+				return ""
+			}
+			callee := call.Call.StaticCallee()
+			if callee == nil || len(callee.Blocks) == 0 {
+				return ""
+			}
+			o := callee
+			if oo := callee.Origin(); oo != nil {
+				o = oo
+			}
+			fo := fn
+			if oo := fn.Origin(); oo != nil {
+				fo = oo
+			}
+			if o.Pkg == nil || fo.Pkg == nil || o.Pkg != fo.Pkg {
+				return ""
+			}
+			n := constructedTypeDepth(o, depth+1)
+			if n == "" || name != "" && name != n {
+				return ""
+			}
+			name = n
+		}
+	}
+	return name
+}
+
+func constructedHere(fn *ssa.Function) string {
 	name := ""
 	for _, b := range fn.Blocks {
 		for _, in := range b.Instrs {
